@@ -58,7 +58,22 @@ def enc_out(f):
 # ----------------------------------------------------------------------------- C08
 
 RP_QUICK = ["", ">=3.8", "<3.7", ">=2.7,<3", "==3.9.*", ">=3.6,!=3.8.*", "<3.0||>=3.10", ">=3.8.3,<3.8.7", "==3.10.4",
-            ">3.12", "<=3.5.0", "~=3.7", ">=3.7.3,<3.9.3", "!=3.9.*", ">=2.7,!=3.0.*,!=3.1.*,!=3.2.*", "<2.0"]
+            ">3.12", "<=3.5.0", "~=3.7", ">=3.7.3,<3.9.3", "!=3.9.*", ">=2.7,!=3.0.*,!=3.1.*,!=3.2.*", "<2.0",
+            # a single interpreter X.Y.0 / everything but it: the wheel's own lower bound must be inclusive (seed C08c)
+            "<=3.9", "==3.9", "==3.9.0", ">=3.8,<=3.9", ">3.9", ">3.9.0,<3.10", "<=3.10.0,>3.9.7", "==2.7", "<3.9.1,>=3.9"]
+
+
+def boundary_tags(rp_text, pys):
+    """python tags whose minor is at, just below and just above every X.Y named by the requires-python text"""
+    import re
+    out = []
+    for X, Y in re.findall(r"(\d+)\.(\d+)", rp_text):
+        for d in (-1, 0, 1):
+            for impl in ("py", "cp", "pp"):
+                t = f"{impl}{X}{int(Y) + d}"
+                if t in pys and t not in out:
+                    out.append(t)
+    return out
 
 
 def rp_pool(rng, n):
@@ -143,6 +158,7 @@ def run_c08(run: core.Run, n_rp: int) -> None:
         for impl_s in IMPLS:
             env = EnvSpec(rp, None, mk_impl(impl_s))
             sample = pys if (run.tier == "thorough" or rp_text in RP_QUICK[:6]) else rng.sample(pys, 40)
+            sample = sample + [t for t in boundary_tags(rp_text, pys) if t not in sample]
             for py in sample:
                 for abi in abi_tags_for(py):
                     out = enc_out(lambda: env._evaluate_python(py, abi))
@@ -412,8 +428,11 @@ def wheel_names(rng, n):
             parts.append(rng.choice(["1", "2abc", "10_x"]))
         py = ".".join(rng.sample(["py2", "py3", "cp39", "cp310", "pp39"], rng.randint(1, 3)))
         abi = ".".join(rng.sample(["none", "abi3", "cp39", "cp310m", "pypy39_pp73"], rng.randint(1, 2)))
+        # (tags ending in one of the characters of ".whl" too: seed C18c, rstrip(".whl") for removesuffix)
         plat = ".".join(rng.sample(["any", "linux_x86_64", "manylinux_2_17_x86_64", "manylinux2014_x86_64", "win_amd64",
-                                    "macosx_10_9_universal2"], rng.randint(1, 3)))
+                                    "macosx_10_9_universal2", "linux_armv7l", "manylinux2014_armv7l", "musllinux_1_1_armv7l",
+                                    "macosx_10_9_intel", "macosx_10_6_universal", "linux_ppc64le", "win32", "linux_sh"],
+                                   rng.randint(1, 3)))
         parts += [py, abi, plat]
         s = "-".join(parts) + ".whl"
         r = rng.random()
@@ -506,7 +525,7 @@ def run_prop(prop: str, run: core.Run) -> None:
         run.rule = ("requires_python shapes (ranges, unions, exclusions, bounds inside a minor series) x {unspecified, cpython, "
                     "cpython free-threaded, pypy, pyston} x python tags cp/pp/pt/py for majors 2-3 minors 0-20 x abi tags "
                     "(none, abi3, native with m/t/d flags, pypy/pyston style, mismatching); non-trivial = reported compatible")
-        run_c08(run, 16 if quick else 120)
+        run_c08(run, 30 if quick else 120)
     elif prop == "C09":
         run.rule = ("the whole OS x architecture grid of the statement (manylinux 2.5-2.50 x 7 archs, musllinux 1.1-1.5, "
                     "macOS 10.4-10.16 and 11-30 x {x86_64, arm64}, windows x 3, aliases), enumerated completely")
